@@ -695,7 +695,10 @@ def _run_threads(desc, V):
         wants = []
         for i in range(2):
             xs = MultiVector.fromkeysvalues(proto, tuple(ka), list(x_vals[i].values()))
-            wants.append(coeffs(xs * xs))
+            import sympy as _sp
+            xp = proto.multivector(keys=tuple(ka), values=[_sp.Symbol(f'u{n}') for n in range(len(ka))])
+            use_x = not (xp * xp).free_symbols
+            wants.append(coeffs(xs) if use_x else coeffs(xs * xs))
     else:
         wants = []
         for i in range(2):
@@ -710,9 +713,10 @@ def _run_threads(desc, V):
         if scenario == 'symbolic-call':
             import sympy
             x = alg.multivector(keys=tuple(ka), values=[sympy.Symbol(f'u{n}') for n in range(len(ka))])
-            y = x * x
-            bodies = [(lambda i=i: y(**x_vals[i])) for i in range(2)]
-            again = lambda: y(**x_vals[0])
+            y = x if use_x else x * x
+            fs = sorted(str(v) for v in y.free_symbols)
+            bodies = [(lambda i=i: y(**{n: x_vals[i][n] for n in fs})) for i in range(2)]
+            again = lambda: y(**{n: x_vals[0][n] for n in fs})
         else:
             rebuilt = [[MultiVector.fromkeysvalues(alg, tuple(m.keys()), list(m.values())) for m in args] for args in argsets]
             r = 'register' if scenario == 'registered' else route
